@@ -456,6 +456,15 @@ func aliasedOp(t *rapid.T) map[string]interface{} {
 		"from": container + "/" + spell("fromIndex"), "path": container + "/" + spell("pathIndex") + tail}
 }
 
+// unanchored puts, one time in eight, some text in front of the pointer's first '/': not a JSON pointer (RFC 6901)
+// any more, but a patch engine that splits at '/' and drops the first token still follows it to the same location.
+func unanchored(t *rapid.T, pointer, label string) string {
+	if rapid.IntRange(0, 7).Draw(t, label) != 0 {
+		return pointer
+	}
+	return rapid.SampledFrom([]string{"x", "0", "~", " ", "#", "publicKey", "."}).Draw(t, label+"Text") + pointer
+}
+
 func jsonPatchOp(t *rapid.T) map[string]interface{} {
 	if rapid.IntRange(0, 7).Draw(t, "aliased") == 0 {
 		return aliasedOp(t)
@@ -467,11 +476,11 @@ func jsonPatchOp(t *rapid.T) map[string]interface{} {
 		o["path"] = rapid.SampledFrom([]interface{}{float64(5), nil, []interface{}{}, true}).Draw(t, "illTypedPath")
 	case 1:
 	default:
-		o["path"] = rapid.SampledFrom(jsonPaths).Draw(t, "path")
+		o["path"] = unanchored(t, rapid.SampledFrom(jsonPaths).Draw(t, "path"), "pathPrefix")
 	}
 	switch rapid.IntRange(0, 3).Draw(t, "fromKind") {
 	case 0:
-		o["from"] = rapid.SampledFrom(jsonPaths).Draw(t, "from")
+		o["from"] = unanchored(t, rapid.SampledFrom(jsonPaths).Draw(t, "from"), "fromPrefix")
 	case 1:
 		if rapid.IntRange(0, 4).Draw(t, "illTypedFrom") == 0 {
 			o["from"] = rapid.SampledFrom([]interface{}{float64(1), nil, map[string]interface{}{}}).Draw(t, "fromVal")
@@ -642,9 +651,11 @@ func FuzzJSONPatch(f *testing.F) {
 		`[{"op":"add","path":"/m1/-","value":"c"}]`, `[{"op":"remove","path":"/m1/0"}]`, `[{"op":"move","from":"/m1/0","path":"/m2"}]`, `[{"op":"copy","from":"/nested","path":"/n2"}]`,
 		`[{"op":"test","path":"/label","value":"x"}]`, `[{"op":"replace","path":"/nested/a/b","value":null}]`, `[{"op":"add","path":"/m1/-1","value":1}]`, `[{"op":"test","path":"/zz"}]`,
 		`[{"op":"add","path":"/nul/x","value":1}]`, `[{"op":"move","from":"/publicKey","path":"/x"}]`, `[{"op":"remove","path":""}]`,
+		`[{"op":"remove","path":"x/service/0"}]`, `[{"op":"copy","from":"/m1/0","path":"/m1/00/x"}]`, `[{"op":"copy","from":"/nested","path":"/n"},{"op":"move","from":"/n","path":"/nested/x"}]`,
 	}
 	for _, s := range seeds {
 		f.Add([]byte(s), uint8(1))
+		f.Add([]byte(s), uint8(3)) // the document with both sections
 	}
 	f.Fuzz(func(t *testing.T, ops []byte, docSel uint8) {
 		if len(ops) > 4096 {
